@@ -2,6 +2,7 @@
 from ..expr import ExprBuilder, show, walk, to_poly, Poly, canon
 from .. import paths
 from . import common as cm
+from . import c05_solver
 
 CREATE = "mlpg_adjust::MlpgAdjust::<'a>::create"
 
@@ -11,6 +12,7 @@ def run(ctx):
     ctx.rule("C05-R2", "masked-out frames are filled with the no-data constant")
     ctx.rule("C05-R3", "the mask and the per-window parameter sequences are expanded by the same `durations` and filtered by the same mask; element m = vector_length*window_index + vector_index with inverted variance; boundary distances come from the same mask")
     p = cm.program(ctx)
+    c05_solver.check(ctx, p)
 
     # ---- R1
     pred = None
